@@ -142,6 +142,17 @@ CLAIMED = {
             'Not demanded: -a^b, truth values as numbers, % with negative operands, fractional powers, sqrt of negatives. Numeric '
             'agreement to 5-6 significant digits.',
             'DESIGN.md section 6, C02'),
+    'C12': ('model_checking', 'fault plans (exhaustive for small scripts) replayed into the real pipeline over a fault-injecting network; TLC validates each run against TraceFaults.tla',
+            'A fault plan gives every request (device, request kind, statement) 0, 1, 2 or "never" unanswered attempts: every plan for six '
+            'scripts of up to 4 requests, plus sampled plans for longer scripts that mix unknown lights/groups/locations and lights '
+            'without the zone/matrix capability. Each (script, plan) runs on the real retry decorators / LightSet / Machine over SimLan, '
+            'and once fault-free (self-composition). TLC checks per record: at most three attempts per request, abandoned requests '
+            'logged, script finished, healthy devices received exactly the fault-free traffic, nothing sent to unaddressed devices. '
+            'Discovery plans (failing broadcast, device silent on label/group/location/features, multizone silent on zone query, '
+            'matrix silent on chain query): discover() returns True/False, never raises, keeps the directory, and scripts still run.',
+            'After a `get` from a silent device only which commands reach healthy devices is compared, not their payload (it depends '
+            'on the unanswered read).',
+            'DESIGN.md section 6, C12'),
 }
 
 REASONS_PENDING = 'check not built yet in this round (planned in DESIGN.md section 6); no claim is made'
